@@ -201,6 +201,7 @@ def run_shard(sh, tier, seed):
             seen[s0] = None
             frontier.append(s0)
     step_of = {}
+    tie_state = set()
     n_last = 0
     while frontier:
         s = frontier.popleft()
@@ -217,6 +218,11 @@ def run_shard(sh, tier, seed):
         case = dict(fn="greedy_substitution", L=L, model=kind, motifs=motifs, masked=sh["masked"], seq="".join(ALPH[c] for c in s),
                     max_iter=1, tol=0, batch_size=bs, seed=seed, alphabet=ALPH, loss=lk)
         best_cands = [c for c, l in zip(cands, losses) if l == best] if improving else []
+        if kind == "linear64" and improving:
+            # states in which two DIFFERENT resulting sequences are within 1e-9 of the smallest loss: which of them a call takes is decided
+            # by the last bits (and hence by the batch size); multi-step expectations are not formed through such states
+            if len({c[2] for c, l in zip(cands, losses) if abs(l - best) <= 1e-9 * max(1.0, abs(best))}) > 1:
+                tie_state.add(s)
         is_last = improving and all(p == L - len(motifs[mi]) for (mi, p, _) in best_cands)
         n_last += int(is_last)
         tag = "best_is_last_fitting_position" if is_last else "general"
@@ -265,7 +271,7 @@ def run_shard(sh, tier, seed):
                     if it == max_iter:
                         break
                     nx = step_of.get(exp)
-                    if nx is None:
+                    if nx is None or exp in tie_state:
                         exp = None
                         break
                     # the losses are float32 tensors in the implementation, and so is their difference: at the boundary
